@@ -84,7 +84,7 @@ impl Ctx {
     }
     /// adopt the trace of a sub-run's disk (used when that sub-run is the violating one)
     pub fn adopt_trace(&mut self, sub: &Disk, title: &str) {
-        if self.trace {
+        if self.trace && !std::rc::Rc::ptr_eq(&sub.0, &self.disk.0) {
             let lines = sub.take_trace();
             self.disk.note(|| format!("---- {title}"));
             let mut d = self.disk.0.borrow_mut();
